@@ -590,9 +590,9 @@ PROPS = {
         lean="AnyDB.Props.C10",
         lean_extra=["AnyDB.Props.C10Pins"],
         runs=[
-            Run("c10", "schedules", [], (58, 3), (58, 1), proj_after_L, ["C10", "panic"], c10_features, clean=False),
+            Run("c10", "schedules", [], (59, 3), (59, 1), proj_after_L, ["C10", "panic"], c10_features, clean=False),
         ],
-        rule="cases = the 13 operations of thread A × 4 scripts of thread B (52 pairs) + 6 pairs with a Reader of A's region held across the whole schedule; per pair: the schedule without parking, then A parked at its k-th lock event for k = 1, 1+s, 1+2s, … (s = 3 in the quick tier with a different offset per run seed, s = 1 = every event in the thorough tier); non-trivial = parked at at least two different kinds of lock event; distinct = distinct (pair, parking-event sequence)",
+        rule="cases = the 13 operations of thread A × 4 scripts of thread B (52 pairs) + 6 pairs with a Reader of A's region held across the whole schedule + 1 pair in which A CREATES a Reader of region 'a' and reads through it (parked at every lock event, in particular inside Reader::new) while B appends to 'a' so that it relocates; per pair: the schedule without parking, then A parked at its k-th lock event for k = 1, 1+s, 1+2s, … (s = 3 in the quick tier with a different offset per run seed, s = 1 = every event in the thorough tier); non-trivial = parked at at least two different kinds of lock event; distinct = distinct (pair, parking-event sequence)",
         assumptions=["schedules are directed at lock-event granularity: two threads, one parked at a time; effects between two lock events of one thread are atomic for the other thread only as far as the real locks make them so (that is what is being tested)",
                      "a refused Region::remove (RegionStillReferenced while another handle is alive) is a legal outcome; the region then stays as it was"],
         level_text="Lean 4 theorems over the shared layout changed by atomic sections (the code between taking and dropping the layout write lock): every section — create in a hole / at the end, grow the last region, grow into the adjacent hole, reserve a relocation target in a hole / at the end, move, remove, promote, drop a reservation — preserves 'no byte belongs to two extents' from ANY state satisfying it (createInHole_inv … dropReservation_inv, applySec_inv), hence for EVERY schedule of sections of ANY number of threads regions, in-flight targets, holes and pending holes stay pairwise disjoint (C10_extents_disjoint, C10_regions_disjoint) — at quiescence and in between; C10_sections pins, on the call orders extracted from Region::write_with and create_region_if_needed, that each claim of space is made inside the section that established the space was free (the seeded change moves set_reserved out of its section and breaks this pin); a held reader's snapshot never belongs to another region as long as no flush promotes pending holes while it is held (C10_reader_no_foreign_partial over any schedule without promote); with a flush it does (C10_reader_counterexample = F15, known finding); the executable disjointness check the driver runs on real layouts is proved sound (C10_check_sound). Tied to the code by the extractor and by the directed schedules: every lock event of every operation of A × every script of B on the real crate, contents and C02 invariants checked model-free, final layouts checked by the driver.",
